@@ -879,8 +879,15 @@ def _pairwise(w, s, pair, e, eh, c, dt, bond_m, got, x, hn, imag, pid_main, td, 
             ratio = e_full / e_half
             w.stats.ratio(f"evolve.order:{method}:{c.get('rk_solver', '') if method == 'tdrk' else ''}", want, ratio)
             if ratio < want and not CALIBRATE:
-                raise V({pid_main}, "evolve.order", f"{method}/{c.get('rk_solver', c.get('taylor_order'))}: halving the step reduces the error only by {ratio:.2f} (expected >= {want:.1f} for order {p}); "
-                                                   f"errors {e_full:.3e} -> {e_half:.3e} at x={x:.3g}", sig=f"evolve.order:{method}:{'imag' if imag else 'real'}")
+                # the ratio approaches 2^(p+1) only asymptotically (measured 19.92 at x = 0.43 for the order-4 Taylor step in
+                # imaginary time, higher-order terms of opposite sign): confirmed with a second halving before it is reported
+                e_quarter = run(dt / 4)
+                ratio2 = e_half / e_quarter if e_quarter > 1e-9 else None
+                if ratio2 is None or ratio2 >= want:
+                    w.stats.probes["order_test_preasymptotic"] += 1
+                    return
+                raise V({pid_main}, "evolve.order", f"{method}/{c.get('rk_solver', c.get('taylor_order'))}: halving the step reduces the error only by {ratio:.2f} and {ratio2:.2f} (expected >= {want:.1f} for order {p}); "
+                                                   f"errors {e_full:.3e} -> {e_half:.3e} -> {e_quarter:.3e} at x={x:.3g}", sig=f"evolve.order:{method}:{'imag' if imag else 'real'}")
             w.stats.probes["order_tests"] += 1
 
 
